@@ -25,6 +25,11 @@ Arguments ob_heads {B}. Arguments ob_complete {B}. Arguments ob_bbody {B}.
 
 Definition enc_wf (e : enc) : bool := match e with EncCL d => 0 <=? d | _ => true end.
 
+(** the default of the property statement ("else 4MB"), NOT the constant extracted from the
+    source: the checker stays independent of the code's own default *)
+Definition spec_default : Z := 4 * 1024 * 1024.
+Definition spec_norm (l : Z) : Z := if l =? 0 then spec_default else l.
+
 Section Checker.
   Variable B : Type.
   Variable blen : B -> Z.
@@ -50,10 +55,10 @@ Section Checker.
 
   Definition implb (a b : bool) : bool := if a then b else true.
 
-  Definition prop_serve (cfg : config) (req : wire B) (status : Z) (resp : wire B) (o : observed B) : bool :=
+  Definition prop_serve_with (norm : Z -> Z) (cfg : config) (req : wire B) (status : Z) (resp : wire B) (o : observed B) : bool :=
     if negb (enc_wf (w_enc req) && enc_wf (w_enc resp)) then true else
-    let ceff := norm_limit (effective (c_path cfg) (c_srv cfg)) in
-    let seff := norm_limit (effective (c_pool cfg) (c_proxy cfg)) in
+    let ceff := norm (effective (c_path cfg) (c_srv cfg)) in
+    let seff := norm (effective (c_pool cfg) (c_proxy cfg)) in
     let passes := wire_complete req && fits ceff req in
     (* oversized request: 413 and no backend sees it, declared or chunked *)
     implb (over ceff req) ((ob_status o =? 413) && (ob_heads o =? 0)) &&
@@ -69,6 +74,9 @@ Section Checker.
             ((ob_status o =? status) && beq (ob_body o) (wire_body resp) && ob_frame o) &&
       (* response body shorter than its declared length: never a well-framed success *)
       implb (wire_short resp && negb (over seff resp)) ((400 <=? ob_status o) || negb (ob_frame o))).
+
+  (** the checker of the run: limits normalised with the statement's 4 MB *)
+  Definition prop_serve := prop_serve_with spec_norm.
 
   (** the model's outcome as observables; [heads] is only determined when the handler is
       not reached (0) or the backend received the whole request (1) *)
@@ -93,8 +101,8 @@ Section Checker.
   Definition bN (b : bool) (n : N) : N := if b then n else 0%N.
 
   Definition class_serve (cfg : config) (req : wire B) (resp : wire B) (o : observed B) : N :=
-    let ceff := norm_limit (effective (c_path cfg) (c_srv cfg)) in
-    let seff := norm_limit (effective (c_pool cfg) (c_proxy cfg)) in
+    let ceff := spec_norm (effective (c_path cfg) (c_srv cfg)) in
+    let seff := spec_norm (effective (c_pool cfg) (c_proxy cfg)) in
     let trivial := (wire_len req =? 0) && (blen (w_sent req) =? 0) && (ob_heads o =? 0) in
     let b1 := over ceff req in
     let b2 := wire_len req =? ceff in
@@ -108,7 +116,7 @@ Section Checker.
     (1 + bN b1 1 + bN b2 2 + bN b3 4 + bN b4 8 + bN b5 16 + bN b6 32 + bN b7 64)%N.
 End Checker.
 
-Arguments prop_serve {B}. Arguments corr_serve {B}. Arguments class_serve {B}.
+Arguments prop_serve {B}. Arguments prop_serve_with {B}. Arguments corr_serve {B}. Arguments class_serve {B}.
 Arguments obs_of {B}. Arguments heads_ok {B}. Arguments wire_len {B}. Arguments wire_complete {B}.
 Arguments wire_body {B}. Arguments wire_short {B}. Arguments over {B}. Arguments fits {B}.
 
